@@ -234,6 +234,17 @@ func c14sites(c *Ctx) {
 	slog.RemoveFlags(slog.Lprivacypath, slog.Lprivacypathregexp)
 	entries := append(append(c14entries(), c14lineEntries()...), c14verboseEntries()...)
 	cwd, _ := os.Getwd()
+	if c.X("cwdgone", "") == "1" {
+		// the working directory of the process has been removed under it (os.Getwd fails from now on): where the process
+		// stands is no input of which statement issued a record
+		if d, err := os.MkdirTemp("", "c14-gone-*"); err == nil && os.Chdir(d) == nil {
+			_ = os.Remove(d)
+			c.R.Add("processes_whose_working_directory_was_removed", 1)
+		}
+	}
+	// a logger of some facade elsewhere that carries a skip count of its own: it appears as an attribute VALUE in the
+	// argument list of New (who started this component) - a value like any other
+	c14skipper := slog.New("facade-elsewhere").Root().WithSkip(3)
 	savedDefault := slog.Default()
 	savedStd := stdslog.Default()
 	// the full matrix is enumerated: idx -> (entry, format, skip, kind, wrapper flavour)
@@ -295,6 +306,11 @@ func c14sites(c *Ctx) {
 		defer slog.SetDefault(savedDefault)
 		defer stdslog.SetDefault(savedStd)
 		var lgL slog.Logger = slog.New("c14")
+		startedBy := idx%7 == 5
+		if startedBy {
+			lgL = slog.New("c14", "startedBy", c14skipper)
+			c.R.Add("cells_whose_logger_was_made_with_another_logger_as_an_attribute_value", 1)
+		}
 		base := lgL.Root()
 		base.SetWriter(w).SetErrorWriter(w).SetLevel(slog.InfoLevel)
 		setFormat(base, cl.f)
@@ -304,6 +320,9 @@ func c14sites(c *Ctx) {
 			target = base
 		case "child":
 			ch := base.New("kid")
+			if startedBy {
+				ch = base.New("kid2", "startedBy", c14skipper)
+			}
 			ch.SetWriter(w).SetErrorWriter(w)
 			target = ch
 		}
